@@ -128,7 +128,7 @@ func (z *ZodUnion[T, R]) validate(
 			parseCtx,
 		)
 	}
-	return nil, issues.CreateInvalidUnionError(errs, input, parseCtx)
+	return nil, issues.CreateInvalidUnionErrorWithInst(errs, input, parseCtx, &z.internals.ZodTypeInternals)
 }
 
 // MustParse is like Parse but panics on validation failure.
